@@ -12,7 +12,7 @@ use super::flows::{recv_body_flow, recv_response_flow_cfg};
 use crate::driver::{AnyFlow, ReqCfg};
 use crate::engine::{explore, guarded, hex, show, unhex, Limits, Report, Sys, Tier, Violation};
 
-pub const RULE: &str = "(a) explicit-state search over (flow fingerprint, unconsumed window, remaining budget): actions 'append symbol' for every symbol and 'call' with output sizes {0,1,large}; = ALL strings over the alphabet up to the bound in ALL segmentations; body decoders (chunked with boundary stop off/on, Content-Length: 3, close-delimited) over bytes {0,1,a,F,g,;,SP,CR,LF,0x80} up to length 5 (thorough 6); head parsers (try_read_100 on a POST+Expect flow, try_response on GET and HEAD flows, continuing into the body state) over 26 tokens {HTTP/1.1,HTTP/1.0,HTTP/2,SP,100,200,302,99,1000,OK,CR,LF,CRLF,:,comma,A,Content-Length,Transfer-Encoding,chunked,3,-1,Location,Connection,close,0x00,0xff} up to 3 (thorough 4) tokens. (b) 12 seed exchanges x every single fault (flip each bit of each byte, delete / duplicate each byte, insert each of {CR,LF,:,SP,;,comma,0x00,0xff} at each position, replace each number by {-1, 2^64, 21 digits, 17 hex digits, empty}, splice every prefix of seed A onto every suffix of seed B for 4 seed pairs) x schedules {single call, 1-byte arrivals} x output sizes {1, large} x requests {GET, HEAD, POST+Expect HTTP/1.1, POST+Expect HTTP/1.0 with Connection: close}; thorough: also all double faults (bit flip pairs excluded) on the 4 shortest seeds. (c) 129/200/1000 fields, 65536- and 70000-byte header names, 1 MiB value, 100 KiB reason, 40-digit Content-Length, 30-digit chunk size, five simultaneous close conditions. distinct = distinct (entry point, final flow state class, error class) outcomes";
+pub const RULE: &str = "(a) explicit-state search over (flow fingerprint, unconsumed window, remaining budget): actions 'append symbol' for every symbol and 'call' with output sizes {0,1,large}; = ALL strings over the alphabet up to the bound in ALL segmentations; body decoders (chunked with boundary stop off/on, Content-Length: 3, close-delimited) over bytes {0,1,a,F,g,;,SP,CR,LF,0x80} up to length 5 (thorough 6); head parsers (try_read_100 on a POST+Expect flow, try_response on GET and HEAD flows, continuing into the body state) over 26 tokens {HTTP/1.1,HTTP/1.0,HTTP/2,SP,100,200,302,99,1000,OK,CR,LF,CRLF,:,comma,A,Content-Length,Transfer-Encoding,chunked,3,-1,Location,Connection,close,0x00,0xff} up to 3 (thorough 4) tokens. (b) 12 seed exchanges x every single fault (flip each bit of each byte, delete / duplicate each byte, insert each of {CR,LF,:,SP,;,comma,0x00,0xff} at each position, replace each number by {-1, 2^64, 21 digits, 17 hex digits, empty}, splice every prefix of seed A onto every suffix of seed B for 4 seed pairs) x schedules {single call, 1-byte arrivals} x output sizes {1, large} x requests {GET, HEAD, POST+Expect HTTP/1.1, POST+Expect HTTP/1.0 with Connection: close}; thorough: also all double faults (bit flip pairs excluded) on the 4 shortest seeds. (c) 129/200/1000 fields, 65536- and 70000-byte header names, 1 MiB value, 100 KiB reason, 40-digit Content-Length, 30-digit chunk size, five simultaneous close conditions; chunk-size lines (without / with extension) and trailer lines of 8..130 bytes carrying one 2-, 3- or 4-byte UTF-8 character or a lone 0xff at EVERY offset. distinct = distinct (entry point, final flow state class, error class) outcomes";
 
 // ------------------------------------------------------------------------------------------
 // common oracle pieces
@@ -657,6 +657,40 @@ fn stress_streams() -> Vec<(String, Vec<u8>)> {
     v.push(("five close conditions".into(), b"HTTP/1.0 403 Forbidden\r\nConnection: close\r\nX-Why: no\r\n\r\nbody until close".to_vec()));
     v.push(("status 100 with fields".into(), b"HTTP/1.1 100 Continue\r\nX: y\r\n\r\nHTTP/1.1 200 OK\r\n\r\n".to_vec()));
     v.push(("bare LF line endings".into(), b"HTTP/1.1 200 OK\nContent-Length: 3\n\nabc".to_vec()));
+    // lines of the chunked coding that are (much) longer than the decoder's limits and carry one
+    // multi-byte UTF-8 character (or a lone 0xff) at EVERY offset: chunk-size lines without and with
+    // an extension, and trailer lines
+    let chars: [&[u8]; 4] = ["\u{e9}".as_bytes(), "\u{20ac}".as_bytes(), "\u{1f600}".as_bytes(), b"\xff"];
+    for kind in ["size line", "size line with extension", "trailer line"] {
+        for len in [8usize, 19, 20, 21, 22, 23, 24, 25, 26, 40, 99, 100, 101, 102, 103, 104, 130] {
+            for (ci, ch) in chars.iter().enumerate() {
+                for off in 0..=len - ch.len() {
+                    let mut line: Vec<u8> = Vec::new();
+                    let prefix: &[u8] = match kind {
+                        "size line" => b"3",
+                        "size line with extension" => b"3;",
+                        _ => b"T:",
+                    };
+                    line.extend_from_slice(prefix);
+                    if off + ch.len() + prefix.len() > len {
+                        continue;
+                    }
+                    line.extend(std::iter::repeat(b' ').take(off));
+                    line.extend_from_slice(ch);
+                    while line.len() < len {
+                        line.push(b'a');
+                    }
+                    let mut s = b"HTTP/1.1 200 OK\r\nTransfer-Encoding: chunked\r\n\r\n1\r\nx\r\n".to_vec();
+                    if kind == "trailer line" {
+                        s.extend_from_slice(b"0\r\n");
+                    }
+                    s.extend_from_slice(&line);
+                    s.extend_from_slice(b"\r\nabc\r\n0\r\n\r\n");
+                    v.push((format!("{} of {} bytes, character #{} at offset {}", kind, len, ci, off + prefix.len()), s));
+                }
+            }
+        }
+    }
     v
 }
 
@@ -696,7 +730,7 @@ fn run_c(rep: &mut Report) {
             rep.violation(Violation { key, ord: 9_000_000 + i as u64, what, replay });
         }
     }
-    rep.sample(json!({"family": "c", "shapes": ss.iter().map(|x| x.0.clone()).collect::<Vec<_>>()}));
+    rep.sample(json!({"family": "c", "shapes": ss.len(), "first_shapes": ss.iter().take(16).map(|x| x.0.clone()).collect::<Vec<_>>()}));
 }
 
 pub fn run(tier: Tier) -> Report {
